@@ -23,6 +23,10 @@ def le(labels, be):
 
 def invoke(case, c, operands):
     """Returns dict: name -> list of labels in *little-endian* order (or single-label lists)."""
+    if case.get("live_outputs"):
+        # the first operand list *is* the circuit's own outputs list (what `c.outputs` hands out); with add_outputs
+        # it grows while the gadget is built, which is the circuit's doing, so the no-modification guard does not apply
+        return _invoke(case, c, [c.outputs] + [list(o) for o in operands[1:]])
     guard = gencommon.OperandLists(operands, alias=case.get("alias", False))
     try:
         return _invoke(case, c, guard.lists)
@@ -220,6 +224,14 @@ POINTWISE = ("add_if_then_else", "add_pairwise_if_then_else", "add_pairwise_xor"
 
 def check_case(p, case, rnd, timeout_ms=240000):
     host = gencommon.Host(case.get("host", "fresh"), case["widths"], rnd)
+    if case.get("same_then_else"):
+        if case["fn"] == "add_if_then_else":
+            host.operands[0][2] = host.operands[0][1]
+        else:
+            host.operands[2] = list(host.operands[1])
+    if case.get("live_outputs"):
+        host.c.set_outputs(list(host.operands[0]))
+        host.refresh()
     be = case.get("big_endian", False)
     desc = f"{case} in {host.before_desc}"
     p.case(("c09", repr(sorted(case.items()))), sample=desc if len(p.samples) < 3 else None)
@@ -381,6 +393,12 @@ def make_cases(tier, rnd):
             cases.append(dict(fn="add_pairwise_if_then_else", widths=[n, n, n], n=n, add_outputs=ao, named=bool(n % 2), host="dup-outputs"))
         cases.append(dict(fn="add_if_then_else", widths=[3], add_outputs=ao, named=False, host="dup-outputs"))
         cases.append(dict(fn="add_plus_one", widths=[3], out_len=3, add_outputs=ao, host="dup-outputs"))
+        for il, ol in ((1, None), (2, None), (3, None), (3, 5), (2, 2)):
+            cases.append(dict(fn="add_plus_one", widths=[il], out_len=ol, add_outputs=ao, host="host", live_outputs=True))
+        cases.append(dict(fn="add_pairwise_xor", widths=[2, 2], n=2, add_outputs=ao, named=False, host="host", live_outputs=True))
+        cases.append(dict(fn="add_pairwise_if_then_else", widths=[2, 2, 2], n=2, add_outputs=ao, named=True, host="host", same_then_else=True))
+        cases.append(dict(fn="add_pairwise_if_then_else", widths=[3, 3, 3], n=3, add_outputs=ao, named=False, host="fresh", same_then_else=True))
+        cases.append(dict(fn="add_if_then_else", widths=[3], add_outputs=ao, named=bool(ao), host="host", same_then_else=True))
     for w in ([32, 64, 128] if thorough else [32, 128]):
         cases.append(dict(fn="add_sub_two_numbers", widths=[w, w], host="fresh"))
         cases.append(dict(fn="add_subtract_with_compare", widths=[w, w - 5], host="fresh"))
